@@ -3,8 +3,9 @@ C14 — exception-flow skeleton of `list_programs` → `labelled_programs` → `
 (`collect`) and of `cli_tag.main` (`tag`), AS WRITTEN NOW in /repo. Core Lean only.
 
 The externals are parameters returning `Except`, and the theorems quantify over ALL their behaviours:
-  * `clean`    : `Cleanup(strategy).run` (for `full`: regex passes + `tokenize.generate_tokens`;
-                 for `none`: the identity) — called by `list_programs` OUTSIDE any `try`;
+  * `clean`    : `Cleanup.full_cleaning` for `--cleanup full` (regex passes + `tokenize.generate_tokens`),
+                 the identity for `none` — since fix c7d362e wrapped in `safe_full_cleaning`, whose
+                 catch-all handler returns the raw text;
   * `prepare`  : `get_program`'s hint handling on a hint-free text (total by the property's quantifier);
   * `parse`    : `ast.parse` — called by `ProgramParser.__call__` inside
                  `try … except (SyntaxError, ValueError)`;
@@ -39,26 +40,27 @@ def sKeyError : Name := [75, 101, 121, 69, 114, 114, 111, 114] -- "KeyError"
 def astLabel (errName : Name) (src : Name) : Label :=
   { name := sAst ++ errName, spans := [(1, ((src.count 10 : Nat) : Int) + 1, [])] }
 
-/-- `Label("ast_construction:EmptyProgramError", [Span(0, 0)])` -/
-def emptyLabel : Label := { name := sAst ++ sEmpty, spans := [(0, 0, [])] }
+/-- `Label("ast_construction:EmptyProgramError", [Span(1, source.count("\n") + 1)])` (fix 57ac228: the
+empty-program error spans the stored listing like the other construction errors). -/
+def emptyLabel (src : Name) : Label := astLabel sEmpty src
 
 /-- `ProgramParser.__call__(program)` on the stored source. -/
 def parseProgram {Tree : Type} (X : Ext Tree) (src : Name) : Except Exc (List Label) :=
   match X.parse src with
   | .error e => if e.caught then .ok [astLabel e.name src] else .error e
-  | .ok t => if X.isEmpty t then .ok [emptyLabel] else X.features src t
+  | .ok t => if X.isEmpty t then .ok [emptyLabel src] else X.features src t
 
-/-- `list_programs`: every file is cleaned then turned into a `Program`; the first exception raised
-by `clean` propagates (there is no `try`). Input: (relative path, raw text) in sorted order. -/
-def cleanAll {Tree : Type} (X : Ext Tree) : List (Name × Name) → Except Exc (List (Name × Name))
-  | [] => .ok []
-  | (p, raw) :: t =>
-    match X.clean raw with
-    | .error e => .error e
-    | .ok s =>
-      match cleanAll X t with
-      | .error e => .error e
-      | .ok r => .ok ((p, X.prepare s) :: r)
+/-- `Cleanup("full").run = Cleanup.safe_full_cleaning` (fix c7d362e): ANY exception of the cleaning
+falls back to the uncleaned text, so that the parser reports the error. -/
+def safeClean {Tree : Type} (X : Ext Tree) (raw : Name) : Name :=
+  match X.clean raw with
+  | .ok s => s
+  | .error _ => raw
+
+/-- `list_programs`: every file is cleaned (never raises any more) then turned into a `Program`.
+Input: (relative path, raw text) in sorted order. -/
+def cleanAll {Tree : Type} (X : Ext Tree) (files : List (Name × Name)) : List (Name × Name) :=
+  files.map fun f => (f.1, X.prepare (safeClean X f.2))
 
 /-- The labelling loop of `labelled_programs` (before the relabelling, which is in `makeDb`). -/
 def parseAll {Tree : Type} (X : Ext Tree) : List (Name × Name) → Except Exc (List Prog)
@@ -74,15 +76,12 @@ def parseAll {Tree : Type} (X : Ext Tree) : List (Name × Name) → Except Exc (
 /-- `TagDatabase(directory)`. -/
 def collect {Tree : Type} (X : Ext Tree) (toTaxa : Name → List Label → List Taxon)
     (files : List (Name × Name)) : Except Exc Db :=
-  match cleanAll X files with
+  match parseAll X (cleanAll X files) with
   | .error e => .error e
-  | .ok srcs =>
-    match parseAll X srcs with
-    | .error e => .error e
-    | .ok progs =>
-      match makeDb toTaxa progs with
-      | .error (.keyError _) => .error { name := sKeyError, caught := false }
-      | .ok db => .ok db
+  | .ok progs =>
+    match makeDb toTaxa progs with
+    | .error (.keyError _) => .error { name := sKeyError, caught := false }
+    | .ok db => .ok db
 
 /-- `cli_tag.main(source)`: no cleaning at all; labels and their translation. -/
 def tagMain {Tree : Type} (X : Ext Tree) (toTaxa : Name → List Label → List Taxon) (src : Name) :
